@@ -62,6 +62,26 @@ type abSide struct {
 	closeAt       time.Duration
 	shutAt        time.Duration
 	unreadAtClose bool
+	ch            chan func() // operations posted to this side's application goroutine
+}
+
+// async posts f to the side's application goroutine without waiting: it runs
+// when the simulator next blocks, interleaved (at the seeded yield points) with
+// the protocol goroutines and the other application.
+func (s *abSide) async(f func()) {
+	if s.ch == nil {
+		s.ch = make(chan func(), 64)
+		ch := s.ch
+		go func() {
+			for g := range ch {
+				g()
+			}
+		}()
+	}
+	select {
+	case s.ch <- f:
+	default:
+	}
 }
 
 type abConn struct {
@@ -99,6 +119,9 @@ type ABWorld struct {
 	seed            uint64
 	lostDuringClose bool
 	wrapCrossed     [2]bool
+	inAsync         int
+	asyncOps        int
+	pendingAsync    int
 	stormed         bool
 }
 
@@ -398,7 +421,7 @@ func (w *ABWorld) write(ci, si, n int) {
 	if isHard(err) {
 		s.hardErr = err
 	}
-	w.Settle()
+	w.settle()
 }
 
 // read takes one view from the receive queue and checks it against the
@@ -451,7 +474,7 @@ func (w *ABWorld) read(ci, si int) bool {
 	if s.read > acc {
 		w.Fail("stream-invented", "", "connection %d: reader side %d has read %d bytes but the writer's writes accepted only %d", ci, si, s.read, acc)
 	}
-	w.Settle()
+	w.settle()
 	return true
 }
 
@@ -470,7 +493,7 @@ func (w *ABWorld) shutw(ci, si int) {
 		s.shutW = true
 		s.shutAt = time.Since(w.T0)
 	}
-	w.Settle()
+	w.settle()
 }
 
 func (w *ABWorld) closeSide(ci, si int) {
@@ -506,6 +529,9 @@ func (w *ABWorld) Next(step int) Step {
 	switch r.Pick(10, 8, 2) {
 	case 0:
 		if s, ok := w.WireStep(w.fc); ok {
+			if s.Op == "deliver" && w.Cfg.YieldP > 0 && r.Chance(0.3) {
+				s.Op = "ndeliver" // its processing overlaps with the next (posted) application operations
+			}
 			return s
 		}
 		fallthrough
@@ -519,13 +545,20 @@ func (w *ABWorld) Next(step int) Step {
 			}
 			return Step{Op: "accept"}
 		}
+		async := w.Cfg.YieldP > 0 && r.Chance(0.4)
 		switch r.Pick(6, 8, 1, 1) {
 		case 0:
 			sizes := []int{1, 7, 100, 536, 1460, 4000, 16000, 65536}
+			if async {
+				return Step{Op: "awrite", A: ci, B: si, C: r.Range(1, sizes[r.Intn(len(sizes))])}
+			}
 			return Step{Op: "write", A: ci, B: si, C: r.Range(1, sizes[r.Intn(len(sizes))])}
 		case 1:
 			if w.Cfg.Stalls && step < s.stallTil {
 				return Step{Op: "adv", D: int64(time.Duration(r.Range(1, 50)) * time.Millisecond)}
+			}
+			if async {
+				return Step{Op: "aread", A: ci, B: si}
 			}
 			return Step{Op: "read", A: ci, B: si}
 		case 2:
@@ -561,6 +594,11 @@ func (w *ABWorld) Next(step int) Step {
 
 // Apply executes one recorded step.
 func (w *ABWorld) Apply(s Step) {
+	if w.pendingAsync > 0 && (s.Op == "write" || s.Op == "read" || s.Op == "shutw" || s.Op == "close" || s.Op == "connect" || s.Op == "accept") {
+		// an application's own operations are sequential: let the posted ones
+		// finish before the simulator goroutine acts for the applications itself
+		w.Settle()
+	}
 	if s.Op == "adv" && w.Cfg.DropOnly {
 		// the drop-only model has no network delay: what is in flight arrives
 		// (in order) before the clock moves, and what is emitted while it moves
@@ -597,6 +635,29 @@ func (w *ABWorld) Apply(s Step) {
 		w.shutw(s.A, s.B)
 	case "close":
 		w.closeSide(s.A, s.B)
+	case "awrite", "aread", "ashutw":
+		// the same operations run by the side's own application goroutine,
+		// concurrently with whatever the next steps make the stack do
+		_, sd := w.side(s.A, s.B)
+		if sd == nil || sd.closed {
+			return
+		}
+		w.asyncOps++
+		w.pendingAsync++
+		op, a, b, c := s.Op, s.A, s.B, s.C
+		sd.async(func() {
+			w.inAsync++
+			switch op {
+			case "awrite":
+				w.write(a, b, c)
+			case "aread":
+				w.read(a, b)
+			case "ashutw":
+				w.shutw(a, b)
+			}
+			w.inAsync--
+			w.pendingAsync--
+		})
 	}
 }
 
@@ -976,5 +1037,13 @@ func (w *ABWorld) onDrop(f *Frame) {
 	}
 	if seg.Flags&0x10 != 0 && seg.Flags&0x02 == 0 && len(seg.Payload) == 0 && seg.Window > 0 && c.lastWin[1-side] == 0 {
 		c.winDropped[1-side] = true
+	}
+}
+
+// settle waits for quiescence unless called from an application goroutine
+// (only the simulator goroutine may wait; it does so after its next step).
+func (w *ABWorld) settle() {
+	if w.inAsync == 0 {
+		w.Settle()
 	}
 }
